@@ -63,6 +63,7 @@ ASSUMPTIONS = [
 ZONES_QUICK = ["UTC", "America/Chicago"]
 ZONES_ALL = ["UTC", "America/Chicago", "Europe/London", "Australia/Sydney", "Asia/Kolkata"]
 DEV_LENGTHS = [1, 10, 24, 25, 35, 36, 45, 70, 71, 90]
+THRESHOLD_LENGTHS = [1, 24, 25, 35, 36, 70, 71]
 
 
 @functools.lru_cache(maxsize=None)
@@ -280,14 +281,24 @@ def run_billing(case):
 def billing_cases(tier):
     quick = tier == "quick"
     zones = ZONES_QUICK if quick else ZONES_ALL
-    # (entry, feed): the feed matters for from_series (trimming) and for the frame's index
-    combos = [("from_series", "daily"), ("from_series", "hourly"), ("frame_lastday", "daily"), ("frame_extra", "daily")]
-    if not quick:
-        combos += [("frame_lastday", "hourly"), ("frame_extra", "hourly")]
+    all_combos = [(e, f) for e in ("from_series", "frame_lastday", "frame_extra") for f in ("daily", "hourly")]
     out = []
 
     def add(cal, dev, z, e, f, c="baseline"):
         out.append({"space": "billing", "cal": cal, "dev": dev, "zone": z, "entry": e, "feed": f, "cls": c})
+
+    def combos_for(z, d, positions, n):
+        """(entry, feed) pairs enumerated for this zone and deviation."""
+        if d == 0:
+            return all_combos
+        if not quick:  # zones without DST: the feed and the frame conventions cannot interact with anything
+            return all_combos if dst_dates(z) else [("from_series", "daily"), ("frame_extra", "daily")]
+        if z == "UTC":  # no DST: the plain arithmetic; every entry point is covered with the DST zone
+            return [("from_series", "daily")]
+        # the feed's interval only interacts with the ends of the series (trimming, closing read)
+        ends = positions[0] in (0, n - 2, n - 1)
+        return [("from_series", "daily"), ("frame_lastday", "daily"), ("frame_extra", "daily")] + \
+            ([("from_series", "hourly"), ("frame_lastday", "hourly")] if ends else [])
 
     for d in (0, 1, 2):
         if d == 2 and quick:
@@ -299,7 +310,7 @@ def billing_cases(tier):
                     dev = [[p, l] for p, l in zip(positions, lengths)]
                     if d <= 1:
                         for z in zones:
-                            for e, f in combos:
+                            for e, f in combos_for(z, d, positions, n):
                                 add(cal, dev, z, e, f)
                             if d == 0:  # the feed's interval must not matter: also a half-hourly feed on the base calendars
                                 for e in ("from_series", "frame_lastday", "frame_extra"):
@@ -307,14 +318,21 @@ def billing_cases(tier):
                         # Reporting classes: same resampling code; thinner slice
                         if d == 0 or not quick or positions[0] in (0, n - 2, n - 1):
                             for z in (["America/Chicago"] if quick else ["America/Chicago", "Australia/Sydney"]):
-                                for e in ("from_series", "frame_lastday", "frame_extra"):
+                                for e in (("from_series", "frame_lastday") if d else ("from_series", "frame_lastday", "frame_extra")):
                                     add(cal, dev, z, e, "daily", "reporting")
                     else:
+                        # two deviations (thorough), on the regular monthly and the bi-monthly calendar:
+                        #   every pair of positions x every pair of threshold lengths, and
+                        #   every pair of lengths on the position pairs that can interact (adjacent periods, or one of them
+                        #   first / last); non-adjacent interior periods share no read date and the regime is fixed
+                        if cal not in ("cycle30", "bimonthly61"):
+                            continue
                         p, q = positions
                         interacting = q - p == 1 or q == n - 1 or p == 0
-                        if cal in ("cycle30", "bimonthly61") or interacting:
+                        threshold = all(l in THRESHOLD_LENGTHS for l in lengths)
+                        if threshold or interacting:
                             add(cal, dev, "America/Chicago", "from_series", "daily")
-                        if cal == "cycle30" and (q - p == 1 or q == n - 1):
+                        if threshold and q - p == 1:
                             add(cal, dev, "Australia/Sydney", "frame_lastday", "daily")
                             add(cal, dev, "Australia/Sydney", "frame_extra", "daily")
     return out
@@ -337,7 +355,7 @@ def phase_cases(tier):
                     firsts.append((cal, iv.add_days(d, k)))            # first read on DST day + k
                     firsts.append((cal, iv.add_days(d, k - span)))     # closing read on DST day + k
         for cal, first in firsts:
-            for e, f in combos:
+            for e, f in (combos if dst_dates(z, 2022) else combos[:1] + combos[2:3]):
                 out.append({"space": "billing", "cal": cal, "dev": [], "first": first.isoformat(), "zone": z, "entry": e,
                             "feed": f, "cls": "baseline"})
     return out
@@ -525,22 +543,22 @@ def subdaily_cases(tier):
     out = []
 
     def combos(f, z, w):
-        """(gap, entry, cls) combinations enumerated with single runs for this (interval, zone, window)."""
-        full = [(g, e, "baseline") for g in ("nan", "absent") for e in ("from_series", "frame")]
+        """(gap, entry, cls, lattice_hours) combinations enumerated with single runs for this (interval, zone, window)."""
+        full = [(g, e, "baseline", 1) for g in ("nan", "absent") for e in ("from_series", "frame")]
         if not quick:
-            if z == "Asia/Kolkata" and f in (15, 30):
+            if f in (15, 30) and z not in ("America/Chicago", "Australia/Sydney"):
                 return []
-            rep = [("nan", e, "reporting") for e in ("from_series", "frame")] if z == "America/Chicago" and f in (60, 1440) else []
+            rep = [("nan", e, "reporting", 1) for e in ("from_series", "frame")] if z == "America/Chicago" and f in (60, 1440) else []
             return full + rep
-        if f in (60, 1440):
-            rep = [("nan", "from_series", "reporting")] if (z, w) == ("America/Chicago", "spring") else []
-            return full + rep
-        if z == "UTC":
-            return []
-        main, other = ("spring", "autumn") if f == 30 else ("autumn", "spring")
-        if w == main:
-            return [("nan", "from_series", "baseline"), ("absent", "from_series", "baseline")]
-        return [("nan", "frame", "baseline")]
+        if f == 1440:
+            return full + ([("nan", "from_series", "reporting", 1)] if (z, w) == ("America/Chicago", "spring") else [])
+        if z == "UTC":  # no DST day: one combination per interval is enough next to the DST zone
+            return [("nan", "from_series", "baseline", 1)] if f == 60 else []
+        if f == 60:
+            return full + ([("nan", "from_series", "reporting", 3)] if w == "spring" else [])
+        if f == 30:
+            return [("nan", "from_series", "baseline", 1), ("absent", "from_series", "baseline", 1)] if w == "spring" else []
+        return [("nan", "from_series", "baseline", 1), ("nan", "frame", "baseline", 1)] if w == "autumn" else []
 
     for d in (0, 1, 2):
         if d == 2 and quick:
@@ -555,15 +573,15 @@ def subdaily_cases(tier):
                             for c in ("baseline", "reporting"):
                                 out.append(dict(base, runs=[], gap="nan", entry=e, cls=c))
                     elif d == 1:
-                        for runs in run_sets(f, n, 1):
-                            for gap, entry, cls in combos(f, z, w):
+                        for gap, entry, cls, lat in combos(f, z, w):
+                            for runs in run_sets(f, n, 1, lattice_hours=lat):
                                 out.append(dict(base, runs=runs, gap=gap, entry=entry, cls=cls))
                     else:
-                        # two runs: hourly and daily readings, Chicago, 4-hour lattice, both gap kinds via from_series
+                        # two runs: hourly (NaN gaps) and daily (both gap kinds) readings, Chicago, 4-hour lattice, via from_series
                         if z != "America/Chicago" or f not in (60, 1440):
                             continue
                         for runs in run_sets(f, n, 2, lattice_hours=4):
-                            for gap in ("nan", "absent"):
+                            for gap in (("nan", "absent") if f == 1440 else ("nan",)):
                                 out.append(dict(base, runs=runs, gap=gap, entry="from_series", cls="baseline"))
     return out
 
@@ -605,8 +623,8 @@ def replay(rep):
     vs = []
     for k in range(2):
         r = run_case(rep["case"])
-        vs = [v for v in r.get("violations", []) if v["clause"] == rep["clause"]]
-        print(f"run {k}: behaviour={r.get('behaviour')} violations={len(r.get('violations', []))} of clause {rep['clause']}: {len(vs)}")
+        vs = [v for v in r.get("violations", []) if v["clause"] == rep["clause"] and v["key"] == rep.get("key", v["key"])]
+        print(f"run {k}: behaviour={r.get('behaviour')} violations={len(r.get('violations', []))}, of clause {rep['clause']} with the recorded key: {len(vs)}")
         for v in vs[:3]:
             print("  ", v["key"], v["detail"])
     return 1 if vs else 0
